@@ -146,3 +146,39 @@ def big_ops(seed, count, shard, nshards, hashmode=0, focus="all"):
 GENERATORS["big_ops"] = big_ops
 for _f in ("sorted", "serde", "clear", "bulk"):
     GENERATORS["big_" + _f] = (lambda f: (lambda seed, count, shard, nshards: big_ops(seed, count, shard, nshards, focus=f)))(_f)
+
+
+def boundary_items(seed, count, shard, nshards, hashmode=0):
+    """C12 / C03 at the growth boundaries of the underlying map and at the thresholds
+    1024 / 4096: the queue is grown by single pushes to exactly N elements (IndexMap is then
+    exactly full for N = 7 * 2^k / 8 ... ), and the keyed updates are applied to already
+    queued items given with a different payload - among them the newest element, which sits
+    in the last map slot and (all priorities tie) in the last heap position."""
+    sizes = [14, 28, 56, 112, 224, 448, 896, 1792, 3584, 4096, 4100][:count]
+    out = []
+    hid = 0
+    for n in sizes:
+        for kind in ("pq", "dpq"):
+            for tie in (True, False):
+                hid += 1
+                if hid % nshards != shard:
+                    continue
+                rng = random.Random(seed * 104729 + hid)
+                prio = (lambda k: 5) if tie else (lambda k: (k * 7919) % 23)
+                ops = ["new %s 0" % kind] + ["push 0 %d %d %d" % (k, 1000 + k, prio(k)) for k in range(n)]
+                last = n - 1
+                probes = [last, 0, n // 2, rng.randrange(n)]
+                pl = 7
+                for k in probes:
+                    pl += 1
+                    ops += ["push 0 %d %d %d" % (k, pl, prio(k)), "get 0 %d" % k,
+                            "pushinc 0 %d %d %d" % (k, pl + 100, prio(k) + 1), "get 0 %d" % k,
+                            "pushdec 0 %d %d %d" % (k, pl + 200, prio(k) - 1), "get 0 %d" % k,
+                            "chg 0 %d %d" % (k, prio(k)), "chgby 0 %d %d" % (k, prio(k) + 2), "chgadd 0 %d -2" % k,
+                            "getmut 0 %d %d" % (k, pl + 300), "get 0 %d" % k]
+                ops += ["len 0", "peek 0 max", "push 0 %d 0 9" % n, "push 0 %d 1 9" % n, "get 0 %d" % n, "len 0"]
+                out.append("H %d %d 1\n%s\n" % (hid, hashmode, "\n".join(ops)))
+    return "".join(out)
+
+
+GENERATORS["boundary_items"] = boundary_items
